@@ -980,4 +980,266 @@ theorem effective_message_form (dl : Str) (f : Form) (padIds : List Str) (e : El
   rw [← elemId_eq] at hown
   exact effective_message_itext dl _ padIds e d.toList lang b m hb hk hown hne hfl hnd hlang
 
+/-! ### from the row's cells to the shown label (header layer composed in Lean, no slot hypothesis) -/
+
+/-- **a slot of the grouped row, from the cells**: after `process_row`, the value under a column `q` whose headers are `q` /
+`q::language` is the merge, in column order, of that column's (language, text) cells (`row_grouping` + `colFold_eq_colVal`). -/
+theorem slot_of_row (dk : Str) (hk : List (Str × List Str)) (row : List (Str × Str)) (q : Str)
+    (hwf : ∀ c ∈ row, c.1 ≠ "__row".toList ∧ ∃ t ts, lookup c.1 hk = some (t :: ts))
+    (hnc : NoClash dk hk .nil row)
+    (hflat : ∀ c ∈ row, ∀ t ts, lookup c.1 hk = some (t :: ts) → q = t → ts.length ≤ 1) :
+    ∃ out, processRow dk hk row = .ok out ∧ out.get q = colVal dk .none (colCells hk q row) := by
+  obtain ⟨out, hok, hget⟩ := row_grouping dk hk row .nil hwf hnc
+  refine ⟨out, hok, ?_⟩
+  rw [hget q, colFold_eq_colVal dk hk q row _ hflat]
+  rfl
+
+/-- **effective_text for labels, from the row's cells**: in a form whose elements have pairwise distinct xpaths (and no media
+type called `long`), an element whose label slot is the `label` value of its grouped row — the row being any list of
+(header, cell) pairs with the header→tokens map `hk` — shows in every language exactly the spec's reading of the row's label
+cells (the cell suffixed with the language, else the unsuffixed one for the default language), else `-`.  No hypothesis about
+the grouped value other than that a suffixed label cell made it a dict. -/
+theorem effective_text_label_row (dl : Str) (f : Form) (padIds : List Str) (e : Elem) (hk : List (Str × List Str))
+    (row : List (Str × Str)) (out m : Kvs) (lang : Str)
+    (he : e ∈ f.elems) (hpaths : (f.elems.map (·.path)).Nodup)
+    (hmedia : ∀ x ∈ f.elems.flatMap (mediaEntries dl), x.form ≠ s "long")
+    (hwf : ∀ c ∈ row, c.1 ≠ "__row".toList ∧ ∃ t ts, lookup c.1 hk = some (t :: ts))
+    (hnc : NoClash dl hk .nil row)
+    (hflat : ∀ c ∈ row, ∀ t ts, lookup c.1 hk = some (t :: ts) → s "label" = t → ts.length ≤ 1)
+    (hrow : processRow dl hk row = .ok out) (hlab : e.label = out.get (s "label")) (hdict : out.get (s "label") = .dict m)
+    (hne : ∀ c ∈ colCells hk (s "label") row, c.2 ≠ []) (hnd : ((colCells hk (s "label") row).map (·.1)).Nodup)
+    (hlang : lang ≠ []) :
+    via (table dl f) padIds (labelSrc e) (s "long") lang =
+      some ((specRead dl (colCells hk (s "label") row) lang).getD (s "-")) := by
+  obtain ⟨out', hok, hget⟩ := slot_of_row dl hk row (s "label") hwf hnc hflat
+  have hout : out' = out := by rw [hrow] at hok; cases hok; rfl
+  subst hout
+  have hslot : e.label = colVal dl .none (colCells hk (s "label") row) := hlab.trans hget
+  have hd : colVal dl .none (colCells hk (s "label") row) = .dict m := hget ▸ hdict
+  exact effective_text_label dl _ padIds e _ m lang hne hnd hslot hd
+    (ownEntries_label dl f e m he (hlab.trans hdict) hpaths hmedia) hlang
+
+/-- non-vacuity: the row `label::fr = Qfr`, `label = Q` (F19 column order) as the only element of a form -/
+example : ∃ out, processRow "default".toList hkEx rowEx = .ok out ∧
+    out.get "label".toList = colVal "default".toList .none (colCells hkEx "label".toList rowEx) := by
+  apply slot_of_row
+  · intro c hc
+    simp only [rowEx, List.mem_cons, List.mem_nil_iff, or_false] at hc
+    rcases hc with rfl | rfl
+    · exact ⟨by decide, "label".toList, ["fr".toList], by decide⟩
+    · exact ⟨by decide, "label".toList, [], by decide⟩
+  · intro pre h v post hs t hl x
+    rcases pre with _ | ⟨p1, _ | ⟨p2, pre⟩⟩
+    · simp only [rowEx, List.nil_append, List.cons.injEq, Prod.mk.injEq] at hs
+      obtain ⟨⟨rfl, rfl⟩, _⟩ := hs
+      have : lookup "label::fr".toList hkEx = some ["label".toList, "fr".toList] := by decide
+      rw [this] at hl; simp at hl
+    · simp only [rowEx, List.cons_append, List.nil_append, List.cons.injEq, Prod.mk.injEq] at hs
+      obtain ⟨rfl, ⟨rfl, rfl⟩, _⟩ := hs
+      have ht : t = "label".toList := by
+        have : lookup "label".toList hkEx = some ["label".toList] := by decide
+        rw [this] at hl; simpa using hl.symm
+      subst ht
+      have hl2 : lookup ['l', 'a', 'b', 'e', 'l', ':', ':', 'f', 'r'] hkEx = some [['l', 'a', 'b', 'e', 'l'], ['f', 'r']] := by decide
+      simp [colFold, hl2, Kvs.get, merge_none_left, nest]
+    · simp [rowEx] at hs
+  · intro c hc t ts hl _
+    simp only [rowEx, List.mem_cons, List.mem_nil_iff, or_false] at hc
+    rcases hc with rfl | rfl
+    · have h2 : lookup "label::fr".toList hkEx = some ["label".toList, "fr".toList] := by decide
+      rw [h2] at hl; cases hl; simp
+    · have h2 : lookup "label".toList hkEx = some ["label".toList] := by decide
+      rw [h2] at hl; cases hl; simp
+
+/-! ### choices: `OwnEntries` from distinct (list, position) pairs -/
+
+/-- every value of the dict is a plain string (a translated label as rows produce it: language → text) -/
+def AllStr : Kvs → Prop
+  | .nil => True
+  | .cons _ v rest => (∃ t, v = .str t) ∧ AllStr rest
+
+theorem label_items_flat (id : Str) : ∀ (m : Kvs), AllStr m →
+    ((Kvs.items m).flatMap fun (lv : Str × V) =>
+      match lv.2 with
+      | .dict inner => (Kvs.items inner).map fun (lv' : Str × V) => (⟨lv'.1, id, lv.1, lv'.2⟩ : Entry)
+      | v => [⟨lv.1, id, s "long", v⟩]) =
+    (Kvs.items m).map fun (lt : Str × V) => (⟨lt.1, id, s "long", lt.2⟩ : Entry)
+  | .nil, _ => by simp [Kvs.items]
+  | .cons k v rest, h => by
+    obtain ⟨⟨t, rfl⟩, hr⟩ := h
+    simp only [Kvs.items, List.flatMap_cons, List.map_cons]
+    rw [label_items_flat id rest hr]
+    rfl
+
+def noLabel (c : Choice) : Choice := { c with label := .none }
+
+theorem noLabel_id (c : Choice) : (noLabel c).id = c.id := rfl
+
+/-- a choice's entries = its label dict's entries, then the entries of its media -/
+theorem choiceEntries_split (dl : Str) (c : Choice) (m : Kvs) (hlab : c.label = .dict m) (hne : m ≠ .nil) (hstr : AllStr m) :
+    choiceEntries dl c = dictEntries c.id (s "long") (.dict m) ++ choiceEntries dl (noLabel c) := by
+  have hfm : (V.dict m).falsy = false := by
+    cases m with
+    | nil => exact absurd rfl hne
+    | cons k v r => simp [V.falsy]
+  have hn : (V.none).falsy = true := rfl
+  have hid : ({ c with label := V.none } : Choice).id = c.id := rfl
+  unfold choiceEntries
+  simp only [hlab, hfm, Bool.false_eq_true, if_false, noLabel, hn, if_true, List.nil_append, hid]
+  have := label_items_flat c.id m hstr
+  simp only [dictEntries]
+  rw [← this]
+  rfl
+
+theorem choiceEntries_nolabel_form {dl : Str} {c : Choice} {x : Entry} (h : x ∈ choiceEntries dl (noLabel c)) :
+    ∃ kvs mt v, c.media = .dict kvs ∧ (mt, v) ∈ Kvs.items kvs ∧ x.form = mt := by
+  have hn : (V.none).falsy = true := rfl
+  unfold choiceEntries at h
+  simp only [noLabel, hn, if_true, List.nil_append] at h
+  by_cases hmf : c.media.falsy = true
+  · simp [hmf] at h
+  · simp only [hmf, if_false, Bool.false_eq_true] at h
+    cases hm : c.media with
+    | none => simp [hm] at h
+    | str t => simp [hm] at h
+    | dict kvs =>
+      simp only [hm, List.mem_flatMap] at h
+      obtain ⟨⟨mt, value⟩, hmem, hx⟩ := h
+      refine ⟨kvs, mt, value, rfl, hmem, ?_⟩
+      simp only at hx
+      split at hx
+      · simp only [List.mem_map] at hx; obtain ⟨_, _, rfl⟩ := hx; rfl
+      · simp at hx; subst hx; rfl
+
+/-- the entries of a choice under its own id with form `long` are exactly its label dict (no media type is called `long`) -/
+theorem filter_own_choice (dl : Str) (c : Choice) (m : Kvs) (hlab : c.label = .dict m) (hne : m ≠ .nil) (hstr : AllStr m)
+    (hmedia : ∀ kvs, c.media = .dict kvs → ∀ kv ∈ Kvs.items kvs, kv.1 ≠ s "long") :
+    (choiceEntries dl c).filter (isAt c.id (s "long")) = dictEntries c.id (s "long") (.dict m) := by
+  rw [choiceEntries_split dl c m hlab hne hstr, List.filter_append]
+  have h1 : (dictEntries c.id (s "long") (.dict m)).filter (isAt c.id (s "long")) = dictEntries c.id (s "long") (.dict m) := by
+    rw [List.filter_eq_self]
+    intro x hx
+    have := dictEntries_id_form hx
+    simp [isAt, this.1, this.2]
+  have h2 : (choiceEntries dl (noLabel c)).filter (isAt c.id (s "long")) = [] := by
+    rw [List.filter_eq_nil_iff]
+    intro x hx hP
+    simp only [isAt, decide_eq_true_eq] at hP
+    obtain ⟨kvs, mt, v, hm, hmem, hform⟩ := choiceEntries_nolabel_form hx
+    exact hmedia kvs hm (mt, v) hmem (hform ▸ hP.2)
+  rw [h1, h2]; simp
+
+theorem mediaEntries_id {dl : Str} {e : Elem} {x : Entry} (h : x ∈ mediaEntries dl e) : x.id = Itext.path e.path "label" := by
+  have hid : e.path ++ s ":label" = Itext.path e.path "label" := by simp [Itext.path, s]
+  unfold mediaEntries at h
+  cases hm : e.media with
+  | none => simp [hm] at h
+  | str t => simp [hm] at h
+  | dict m =>
+    simp only [hm, List.mem_flatMap] at h
+    obtain ⟨⟨mt, v⟩, _, hx⟩ := h
+    simp only at hx
+    split at hx
+    · simp only [List.mem_map] at hx; obtain ⟨_, _, rfl⟩ := hx; exact hid
+    · simp at hx; subst hx; exact hid
+
+theorem filter_other_choice (dl : Str) (c c' : Choice) (form : Str) (hne : (c'.list, c'.idx) ≠ (c.list, c.idx)) :
+    (choiceEntries dl c').filter (isAt c.id form) = [] := by
+  rw [List.filter_eq_nil_iff]
+  intro x hx hP
+  simp only [isAt, decide_eq_true_eq] at hP
+  have h1 : Itext.choiceId c'.list c'.idx = Itext.choiceId c.list c.idx := by
+    rw [← choiceId_eq, ← choiceId_eq, ← choiceEntries_id hx, hP.1]
+  have := Itext.choiceId_inj h1
+  exact hne (by rw [this.1, this.2])
+
+theorem flatMap_filter_own_choice (dl : Str) (c : Choice) (form : Str) (R : List Entry)
+    (hown : (choiceEntries dl c).filter (isAt c.id form) = R) : ∀ (cs : List Choice),
+    c ∈ cs → (cs.map fun c => (c.list, c.idx)).Nodup →
+    (cs.flatMap (choiceEntries dl)).filter (isAt c.id form) = R
+  | [], h, _ => by simp at h
+  | x :: xs, hmem, hnd => by
+    simp only [List.map_cons, List.nodup_cons] at hnd
+    simp only [List.flatMap_cons, List.filter_append]
+    by_cases hp : (x.list, x.idx) = (c.list, c.idx)
+    · have hnotin : c ∉ xs := fun h => hnd.1 (hp ▸ List.mem_map.mpr ⟨c, h, rfl⟩)
+      have hxe : c = x := by
+        rcases List.mem_cons.mp hmem with h | h
+        · exact h
+        · exact absurd h hnotin
+      subst hxe
+      rw [hown, filter_flatMap_nil _ _ xs fun y hy =>
+        filter_other_choice dl c y form fun h => hnd.1 (h ▸ List.mem_map.mpr ⟨y, hy, rfl⟩)]
+      simp
+    · have hexs : c ∈ xs := by
+        rcases List.mem_cons.mp hmem with h | h
+        · exact absurd (h ▸ rfl) hp
+        · exact h
+      rw [filter_other_choice dl c x form hp, flatMap_filter_own_choice dl c form R hown xs hexs hnd.2]
+      simp
+
+/-- **`OwnEntries` for a choice's label, from distinct (list, position) pairs**: the table's writes to `[<list>-<idx>][long]` are
+exactly the label dict of the choice at that position of that list — no other choice (C07's `choiceId_inj`), no element
+(`choiceId_ne_path`) and none of its media files anything there. -/
+theorem ownEntries_choice (dl : Str) (f : Form) (c : Choice) (m : Kvs) (hc : c ∈ f.choices)
+    (hit : (itextLists f).contains c.list = true) (hlab : c.label = .dict m) (hne : m ≠ .nil) (hstr : AllStr m)
+    (hnd : (f.choices.map fun c => (c.list, c.idx)).Nodup)
+    (hmedia : ∀ kvs, c.media = .dict kvs → ∀ kv ∈ Kvs.items kvs, kv.1 ≠ s "long") :
+    OwnEntries (table dl f) c.id (s "long") m := by
+  unfold OwnEntries table
+  have hP : (fun x : Entry => decide (x.id = c.id ∧ x.form = s "long")) = isAt c.id (s "long") := rfl
+  have hsub : ((f.choices.filter fun c => (itextLists f).contains c.list).map fun c => (c.list, c.idx)).Nodup :=
+    List.Nodup.sublist (List.Sublist.map _ List.filter_sublist) hnd
+  rw [hP, List.filter_append, List.filter_append,
+    flatMap_filter_own_choice dl c (s "long") _ (filter_own_choice dl c m hlab hne hstr hmedia) _
+      (List.mem_filter.mpr ⟨hc, hit⟩) hsub]
+  have hel : (f.elems.flatMap (getTranslations dl)).filter (isAt c.id (s "long")) = [] := by
+    apply filter_flatMap_nil
+    intro e _
+    rw [List.filter_eq_nil_iff]
+    intro x hx hP
+    simp only [isAt, decide_eq_true_eq] at hP
+    obtain ⟨d, hd, hid⟩ := getTranslations_ids dl e hx
+    exact Itext.choiceId_ne_path c.list c.idx e.path hd (by rw [← choiceId_eq, ← hP.1, hid])
+  have hmd : (f.elems.flatMap (mediaEntries dl)).filter (isAt c.id (s "long")) = [] := by
+    apply filter_flatMap_nil
+    intro e _
+    rw [List.filter_eq_nil_iff]
+    intro x hx hP
+    simp only [isAt, decide_eq_true_eq] at hP
+    exact Itext.choiceId_ne_path c.list c.idx e.path (d := "label") (by decide)
+      (by rw [← choiceId_eq, ← hP.1, mediaEntries_id hx])
+  rw [hel, hmd]
+  simp
+
+/-- **effective choice label on whole forms**: every select that uses an itext list shows for the choice at position `idx`,
+per language of the form, the text its own row files under that language, else `-` — never another row's text -/
+theorem effective_choice_label_form (dl : Str) (f : Form) (padIds view : List Str) (sr : Bool) (q : V) (c : Choice) (m : Kvs)
+    (lang : Str) (hc : c ∈ f.choices) (hit : (itextLists f).contains c.list = true) (hlab : c.label = .dict m)
+    (hne : m ≠ .nil) (hstr : AllStr m) (hfl : FlatD m) (hkn : m.keys.Nodup)
+    (hnd : (f.choices.map fun c => (c.list, c.idx)).Nodup)
+    (hmedia : ∀ kvs, c.media = .dict kvs → ∀ kv ∈ Kvs.items kvs, kv.1 ≠ s "long")
+    (hlang : lang ≠ []) (hv : lang ∈ view) :
+    (s "label", lang, (readLang dl (.dict m) lang).getD (s "-")) ∈ choiceTexts (table dl f) padIds view true sr q c :=
+  effective_choice_label_itext dl _ padIds view sr q c m lang
+    (ownEntries_choice dl f c m hc hit hlab hne hstr hnd hmedia) hne hfl hkn hlang hv
+
+def chA : Choice := ⟨"c0".toList, "l".toList, 0, .dict (.cons "fr".toList (.str "Afr".toList) .nil), .none⟩
+def chB : Choice := ⟨"c1".toList, "l".toList, 1, .str "B".toList, .none⟩
+def selEx : Elem :=
+  { key := "s0".toList, path := "/data/q".toList, kind := .select "l".toList false, label := .str "Q".toList,
+    hint := .none, guidance := .none, media := .none, bind := .none }
+def formCh : Form := ⟨[selEx], [chA, chB]⟩
+
+/-- non-vacuity: a two-choice list, the first translated to French only; French reads `Afr`, `default` the placeholder -/
+example : (s "label", "fr".toList, "Afr".toList) ∈
+      choiceTexts (table "default".toList formCh) [] ["fr".toList, "default".toList] true false (.str "Q".toList) chA ∧
+    (s "label", "default".toList, s "-") ∈
+      choiceTexts (table "default".toList formCh) [] ["fr".toList, "default".toList] true false (.str "Q".toList) chA := by
+  have key := fun lang hl hv => effective_choice_label_form "default".toList formCh [] ["fr".toList, "default".toList] false
+    (.str "Q".toList) chA (.cons "fr".toList (.str "Afr".toList) .nil) lang (by simp [formCh]) (by decide) rfl
+    (by intro h; cases h) ⟨⟨_, rfl⟩, trivial⟩ (flatD_single _ _ (by decide)) (by decide) (by decide)
+    (by intro kvs h; cases h) hl hv
+  exact ⟨key "fr".toList (by decide) (by decide), key "default".toList (by decide) (by decide)⟩
+
 end Pyxv.C08
